@@ -27,7 +27,121 @@ type Case struct {
 
 func gen(t *rapid.T) Case {
 	src := wild.Program(t, wild.Opts{Loops: true, Go: true, HugeInts: true, MaxDepth: 3, MaxStmts: 3})
+	if rapid.IntRange(0, 2).Draw(t, "shapes") == 0 {
+		// long and deep shapes of one node kind: chains, nests and lists far beyond what the
+		// depth-bounded generator makes (a walker that loops or buffers instead of recursing
+		// has its boundaries there)
+		n := rapid.IntRange(1, 3).Draw(t, "nshapes")
+		for i := 0; i < n; i++ {
+			src += "\n" + genShape(t)
+		}
+	}
 	return Case{Src: src, Abort: rapid.IntRange(0, 400).Draw(t, "abort")}
+}
+
+func shapeLen(t *rapid.T) int {
+	if rapid.Bool().Draw(t, "long") {
+		return rapid.IntRange(14, 40).Draw(t, "len")
+	}
+	return rapid.IntRange(2, 13).Draw(t, "len")
+}
+
+func genShape(t *rapid.T) string {
+	n := shapeLen(t)
+	term := func(i int) string {
+		switch rapid.IntRange(0, 4).Draw(t, "term") {
+		case 0:
+			return fmt.Sprintf("t%d", i)
+		case 1:
+			return fmt.Sprintf("%d", i)
+		case 2:
+			return fmt.Sprintf("f%d(%d)", i, i)
+		case 3:
+			return fmt.Sprintf("\"s%d\"", i)
+		default:
+			return fmt.Sprintf("l[%d]", i)
+		}
+	}
+	join := func(ops []string) string {
+		var b strings.Builder
+		for i := 0; i < n; i++ {
+			if i > 0 {
+				b.WriteString(" " + rapid.SampledFrom(ops).Draw(t, "op") + " ")
+			}
+			b.WriteString(term(i))
+		}
+		return b.String()
+	}
+	nest := func(open, close, leaf string) string {
+		return strings.Repeat(open, n) + leaf + strings.Repeat(close, n)
+	}
+	switch rapid.IntRange(0, 19).Draw(t, "shape") {
+	case 0:
+		return "x = " + join([]string{"+", "-"})
+	case 1:
+		return "x = " + join([]string{"+", "-", "*", "/", "%", "&", "|", "<<", ">>"})
+	case 2:
+		return "x = " + join([]string{"&&", "||"})
+	case 3:
+		return "x = " + join([]string{"==", "!=", "<", ">=", "+", "&&"})
+	case 4:
+		return "x = " + join([]string{"??"})
+	case 5:
+		// ternary chain, right-nested
+		var b strings.Builder
+		for i := 0; i < n; i++ {
+			fmt.Fprintf(&b, "c%d ? %s : ", i, term(i))
+		}
+		return "x = " + b.String() + "0"
+	case 6:
+		return "x = " + nest("f(", ")", "1")
+	case 7:
+		return "x = a" + strings.Repeat("[0]", n)
+	case 8:
+		var b strings.Builder
+		for i := 0; i < n; i++ {
+			fmt.Fprintf(&b, ".m%d", i)
+		}
+		return "x = a" + b.String()
+	case 9:
+		// separated by blanks: "--" and "&&" are tokens of their own
+		return "x = " + strings.Repeat(rapid.SampledFrom([]string{"- ", "! ", "^ ", "* ", "& "}).Draw(t, "un"), n) + "y"
+	case 10:
+		return "x = " + nest("(", ")", "1 + 2")
+	case 11:
+		return "x = " + nest("[", "]", "1")
+	case 12:
+		return "x = " + nest("{\"k\": ", "}", "1")
+	case 13:
+		return "x = " + nest("func() { return ", " }", "1")
+	case 14:
+		terms := make([]string, n)
+		for i := range terms {
+			terms[i] = term(i)
+		}
+		l := strings.Join(terms, ", ")
+		return rapid.SampledFrom([]string{"x = [" + l + "]", "x = f(" + l + ")", "return " + l, "x = []interface{" + l + "}", "go f(" + l + ")", "defer f(" + l + ")"}).Draw(t, "listform")
+	case 15:
+		var b strings.Builder
+		b.WriteString("if c0 {\n a = 0\n}")
+		for i := 1; i < n; i++ {
+			fmt.Fprintf(&b, " else if c%d {\n a = %s\n}", i, term(i))
+		}
+		return b.String() + " else {\n a = 1\n}"
+	case 16:
+		var b strings.Builder
+		b.WriteString("switch s {\n")
+		for i := 0; i < n; i++ {
+			fmt.Fprintf(&b, "case %d, %s:\n a = %d\n", i, term(i), i)
+		}
+		return b.String() + "default:\n a = 0\n}"
+	case 17:
+		return nest("if a {\n", "\n}", "b = 1")
+	case 18:
+		return nest("for {\n", "\n}", "break")
+	default:
+		return "x = " + join([]string{"??", "+", "||", "==", "*"})
+	}
 }
 
 // node kinds the repo's own TestWalk sample does not contain
